@@ -264,6 +264,189 @@ theorem step_keeps (cfg : Cfg) (s : State) (op : Op) (B : Addr)
           exact (List.all_eq_true.1 hall) m hm
         exact hop ⟨m, hm, writes_involves cfg s.grants B m hg hm_ante hw⟩
 
+/-! ### Transferable ownership (denoms) -/
+
+theorem setAt_same {α : Type} (f : Nat → α) (d : Nat) (v : α) : setAt f d v d = v := by simp [setAt]
+
+theorem setAt_other {α : Type} (f : Nat → α) {d x : Nat} (v : α) (h : x ≠ d) : setAt f d v x = f x := by
+  simp [setAt, h]
+
+theorem dAnteOk_iff (m : DMsg) (g : Addr → Addr → Bool) :
+    dAnteOk m g = true ↔ (m.creator ∈ m.signers ∨ ∃ a ∈ m.signers, g m.creator a = true) := by
+  simp [dAnteOk, List.any_eq_true]
+
+theorem dHandle_grants (namer : Nat → Addr) (s s' : DState) (m : DMsg) (h : dHandle namer s m = some s') :
+    s'.grants = s.grants := by
+  unfold dHandle at h
+  split at h <;> (split at h <;> simp at h) <;> (subst h; rfl)
+
+/-- handler level: a handler that changes what is kept for `d` acts on `d`, in its owner's name -/
+theorem dHandle_changed (namer : Nat → Addr) (s s' : DState) (m : DMsg) (d : Nat)
+    (h : dHandle namer s m = some s') (hne : dView s' d ≠ dView s d) :
+    d = m.denom ∧ dOwner namer s d = some m.creator := by
+  have hd : d = m.denom := by
+    apply Classical.byContradiction
+    intro hd
+    apply hne
+    unfold dHandle at h
+    split at h <;> (split at h <;> simp at h) <;> (subst h; simp [dView, setAt, hd])
+  subst hd
+  refine ⟨rfl, ?_⟩
+  unfold dHandle at h
+  unfold dOwner
+  split at h
+  · split at h
+    · rename_i hc; simp [hc.1, hc.2]
+    · simp at h
+  · split at h
+    · rename_i hc; simp [hc]
+    · simp at h
+  · split at h
+    · rename_i hc; simp [hc]
+    · simp at h
+
+theorem dDeliver_grants (namer : Nat → Addr) (s : DState) (m : DMsg) : (dDeliver namer s m).grants = s.grants := by
+  unfold dDeliver
+  split
+  · rfl
+  · split
+    · rfl
+    · rename_i s' h; exact dHandle_grants namer s s' m h
+
+theorem dDeliver_changed (namer : Nat → Addr) (s : DState) (m : DMsg) (d : Nat)
+    (h : dView (dDeliver namer s m) d ≠ dView s d) :
+    d = m.denom ∧ dOwner namer s d = some m.creator
+      ∧ (m.creator ∈ m.signers ∨ ∃ a ∈ m.signers, s.grants m.creator a = true) := by
+  unfold dDeliver at h
+  split at h
+  · exact absurd rfl h
+  · rename_i hante
+    have hante' : dAnteOk m s.grants = true := by simpa using hante
+    split at h
+    · exact absurd rfl h
+    · rename_i s' hs'
+      obtain ⟨h1, h2⟩ := dHandle_changed namer s s' m d hs' h
+      exact ⟨h1, h2, (dAnteOk_iff m s.grants).1 hante'⟩
+
+theorem dDeliver_keeps (namer : Nat → Addr) (s : DState) (m : DMsg) (d : Nat) (P : Addr)
+    (hown : dOwner namer s d = some P) (hP : P ∉ m.signers) (hg : ∀ a ∈ m.signers, s.grants P a = false) :
+    dView (dDeliver namer s m) d = dView s d := by
+  apply Classical.byContradiction
+  intro hne
+  obtain ⟨_, h2, h3⟩ := dDeliver_changed namer s m d hne
+  rw [hown] at h2
+  have : P = m.creator := by simpa using h2
+  subst this
+  cases h3 with
+  | inl h => exact hP h
+  | inr h => obtain ⟨a, ha, hga⟩ := h; simp [hg a ha] at hga
+
+/-- is principal `P` involved in `op`?  (signs, or grants an allowance) -/
+def DInvolves (P : Addr) : DOp → Prop
+  | .grant g _ => g = P
+  | .revoke _ _ => False
+  | .msg m => P ∈ m.signers
+
+theorem dOwner_of_view (namer : Nat → Addr) (s s' : DState) (d : Nat) (h : dView s' d = dView s d) :
+    dOwner namer s' d = dOwner namer s d := by
+  unfold dView at h
+  have : s'.den d = s.den d := by simpa using congrArg Prod.fst h
+  simp [dOwner, this]
+
+theorem dStep_keeps (namer : Nat → Addr) (s : DState) (op : DOp) (d : Nat) (P : Addr)
+    (hown : dOwner namer s d = some P) (hg : ∀ e, s.grants P e = false) (hop : ¬ DInvolves P op) :
+    dView (dStep namer s op) d = dView s d ∧ ∀ e, (dStep namer s op).grants P e = false := by
+  cases op with
+  | grant a b =>
+    refine ⟨rfl, fun e => ?_⟩
+    simp only [DInvolves] at hop
+    simp only [dStep, setGrant]
+    split
+    · rename_i h; exact absurd h.1.symm hop
+    · exact hg e
+  | revoke a b =>
+    refine ⟨rfl, fun e => ?_⟩
+    simp only [dStep, setGrant]
+    split
+    · rfl
+    · exact hg e
+  | msg m =>
+    simp only [DInvolves] at hop
+    refine ⟨?_, fun e => by simp only [dStep, dDeliver_grants]; exact hg e⟩
+    exact dDeliver_keeps namer s m d P hown hop (fun a _ => hg a)
+
+/-! ### Batch confirmations -/
+
+/-- a stored confirmation is backed: it names the key the validator it is filed under registered,
+    and carries that key's signature over exactly the batch it confirms -/
+def CBacked (regKey : Addr → Option Nat) (c : CConfirm) : Prop :=
+  regKey c.orch = some c.key ∧ c.sigKey = c.key ∧ c.sigItem = c.batch
+
+/-- the only way the handler stores something: the new confirmation is appended, is filed under
+    the attempt's orchestrator and is backed -/
+theorem cHandle_some (regKey : Addr → Option Nat) (s s' : CState) (a : CAttempt)
+    (h : cHandle regKey s a = some s') :
+    ∃ c, s'.confirms = s.confirms ++ [c] ∧ s'.grants = s.grants ∧ c.orch = a.orch ∧ c.batch = a.batch
+      ∧ c.sigKey = a.sigKey ∧ c.sigItem = a.sigItem ∧ CBacked regKey c := by
+  unfold cHandle at h
+  split at h
+  · simp at h
+  · split at h
+    · simp at h
+    · rename_i hreg
+      split at h
+      · simp at h
+      · rename_i hk
+        split at h
+        · simp at h
+        · rename_i hi
+          split at h
+          · simp at h
+          · split at h
+            · simp at h
+            · simp at h
+              subst h
+              refine ⟨⟨a.batch, a.orch, a.ethSigner, a.sigKey, a.sigItem⟩, rfl, rfl, rfl, rfl, rfl, rfl, ?_⟩
+              refine ⟨?_, ?_, ?_⟩
+              · simpa using hreg
+              · simpa using hk
+              · simpa using hi
+
+theorem cDeliver_cases (regKey : Addr → Option Nat) (s : CState) (a : CAttempt) :
+    cDeliver regKey s a = s ∨ (cAnteOk a s.grants = true ∧ ∃ s', cHandle regKey s a = some s' ∧ cDeliver regKey s a = s') := by
+  unfold cDeliver
+  split
+  · exact Or.inl rfl
+  · rename_i hante
+    split
+    · exact Or.inl rfl
+    · rename_i s' hs'
+      exact Or.inr ⟨by simpa using hante, s', hs', rfl⟩
+
+theorem cDeliver_prefix (regKey : Addr → Option Nat) (s : CState) (a : CAttempt) :
+    ∃ l, (cDeliver regKey s a).confirms = s.confirms ++ l := by
+  cases cDeliver_cases regKey s a with
+  | inl h => exact ⟨[], by rw [h]; simp⟩
+  | inr h =>
+    obtain ⟨_, s', hs', hd⟩ := h
+    obtain ⟨c, hc, _⟩ := cHandle_some regKey s s' a hs'
+    exact ⟨[c], by rw [hd, hc]⟩
+
+theorem cDeliver_backed (regKey : Addr → Option Nat) (s : CState) (a : CAttempt)
+    (hinv : ∀ c ∈ s.confirms, CBacked regKey c) : ∀ c ∈ (cDeliver regKey s a).confirms, CBacked regKey c := by
+  intro c hc
+  cases cDeliver_cases regKey s a with
+  | inl h => rw [h] at hc; exact hinv c hc
+  | inr h =>
+    obtain ⟨_, s', hs', hd⟩ := h
+    obtain ⟨c', hc', _, _, _, _, _, hbk⟩ := cHandle_some regKey s s' a hs'
+    rw [hd, hc'] at hc
+    cases List.mem_append.1 hc with
+    | inl h => exact hinv c h
+    | inr h =>
+      have : c = c' := by simpa using h
+      subst this; exact hbk
+
 end Lemmas
 
 /- ## Property theorems -/
@@ -375,6 +558,172 @@ theorem multi_msg_no_cross_principal_write (cfg : Cfg) (s : State) (msgs : List 
   cases (anteOk_iff m s.grants).1 hante with
   | inl h => exact hB m hm h
   | inr h => obtain ⟨a, ha, hga⟩ := h; simp [hg m hm a ha] at hga
+
+
+/-! ### Ownership that can be handed over (token-factory denoms) -/
+
+/-- Clause "a user's … token denoms … change only through a transaction signed by that principal
+or by an address holding a fee grant from it", where "that principal" is the denom's CURRENT admin
+(`dOwner`; before the denom exists: the account it is named after): if delivering `m` changes
+anything kept for denom `d` (existence, admin, supply / metadata / bridge binding) then `m` acts on
+`d`, its creator IS the owner, and the owner signed or granted an allowance to a signer.  The
+address embedded in the denom's name plays no role once the denom exists. -/
+theorem denom_change_authorised (namer : Nat → Addr) (s : DState) (m : DMsg) (d : Nat)
+    (h : dView (dDeliver namer s m) d ≠ dView s d) :
+    d = m.denom ∧ dOwner namer s d = some m.creator
+      ∧ (m.creator ∈ m.signers ∨ ∃ a ∈ m.signers, s.grants m.creator a = true) :=
+  dDeliver_changed namer s m d h
+
+/-- Clause "a transaction authorised by account A never adds, alters or removes anything
+attributed to a different principal B", for denoms: whatever a transaction names as creator and
+whatever it tries (ChangeAdmin, Mint, Burn, SetDenomMetadata, bridge binding, re-creation), if the
+denom's owner `P` is not among its signers and granted them nothing, the denom is untouched. -/
+theorem denom_no_cross_principal_write (namer : Nat → Addr) (s : DState) (m : DMsg) (d : Nat) (P : Addr)
+    (hown : dOwner namer s d = some P) (hP : P ∉ m.signers) (hg : ∀ a ∈ m.signers, s.grants P a = false) :
+    dView (dDeliver namer s m) d = dView s d :=
+  dDeliver_keeps namer s m d P hown hP hg
+
+/-- A denom whose admin renounced (`ChangeAdmin` to "") belongs to nobody: no transaction of
+anybody changes it any more — not even one by the account it is named after. -/
+theorem denom_renounced_frozen (namer : Nat → Addr) (s : DState) (m : DMsg) (d : Nat)
+    (hown : dOwner namer s d = none) : dView (dDeliver namer s m) d = dView s d := by
+  apply Classical.byContradiction
+  intro hne
+  obtain ⟨_, h2, _⟩ := dDeliver_changed namer s m d hne
+  rw [hown] at h2
+  simp at h2
+
+/-- The same over ALL histories of grants, revocations and denom messages: while the owner `P` of
+`d` does not sign and grants nothing, nothing kept for `d` changes (so `P` stays the owner). -/
+theorem denom_history_owner_only (namer : Nat → Addr) (d : Nat) (P : Addr) (ops : List DOp) :
+    ∀ s : DState, dOwner namer s d = some P → (∀ e, s.grants P e = false) →
+      (∀ op ∈ ops, ¬ DInvolves P op) → dView (dRun namer s ops) d = dView s d := by
+  induction ops with
+  | nil => intro s _ _ _; rfl
+  | cons op rest ih =>
+    intro s hown hg hops
+    have h1 := dStep_keeps namer s op d P hown hg (hops op (by simp))
+    have hown' : dOwner namer (dStep namer s op) d = some P := by
+      rw [dOwner_of_view namer s _ d h1.1]; exact hown
+    have h2 := ih (dStep namer s op) hown' h1.2 (fun o ho => hops o (by simp [ho]))
+    simp only [dRun, List.foldl_cons] at h2 ⊢
+    rw [h2, h1.1]
+
+/-- An accepted `ChangeAdmin` was sent in the name of the then owner and makes exactly the named
+account (or nobody) the owner. -/
+theorem handover_moves_ownership (namer : Nat → Addr) (s : DState) (m : DMsg) (b : Option Addr)
+    (hact : m.act = .changeAdmin b) (hacc : dAccepted namer s m = true) :
+    dOwner namer s m.denom = some m.creator ∧ dOwner namer (dDeliver namer s m) m.denom = b := by
+  unfold dAccepted at hacc
+  have hante : dAnteOk m s.grants = true := by
+    cases h : dAnteOk m s.grants <;> simp [h] at hacc ⊢
+  have hsome : (dHandle namer s m).isSome = true := by
+    cases h : (dHandle namer s m).isSome <;> simp [h] at hacc ⊢
+  unfold dDeliver
+  simp only [hante]
+  unfold dHandle at hsome ⊢
+  simp only [hact] at hsome ⊢
+  by_cases hc : s.den m.denom = some (some m.creator)
+  · simp [hc, dOwner, setAt]
+  · simp [hc] at hsome
+
+/-- After a hand-over to `b`, NO later history in which `b` neither signs nor grants changes the
+denom — in particular nothing the former admin or the account the denom is named after signs
+(e.g. a bridge binding for "its" denom). -/
+theorem former_admin_locked_out (namer : Nat → Addr) (s : DState) (m : DMsg) (b : Addr) (ops : List DOp)
+    (hact : m.act = .changeAdmin (some b)) (hacc : dAccepted namer s m = true)
+    (hg : ∀ e, s.grants b e = false) (hops : ∀ op ∈ ops, ¬ DInvolves b op) :
+    dView (dRun namer (dDeliver namer s m) ops) m.denom = dView (dDeliver namer s m) m.denom := by
+  have h := (handover_moves_ownership namer s m (some b) hact hacc).2
+  exact denom_history_owner_only namer m.denom b ops _ h
+    (fun e => by rw [dDeliver_grants]; exact hg e) hops
+
+/-! ### Batch confirmations: filed under the validator whose key signed -/
+
+/-- Clause "(or, for batch confirmations, carrying the validator's own external-chain signature
+over the exact item)", concretely: a confirmation that appears through an attempt `a` is filed
+under `a`'s ORCHESTRATOR, for `a`'s batch, and `a` carries a signature made by the key that
+orchestrator registered, over exactly that batch (and passed the decorator).  Who sent it does not
+matter — and cannot help. -/
+theorem confirm_appears_only_backed (regKey : Addr → Option Nat) (s : CState) (a : CAttempt) (c : CConfirm)
+    (hin : c ∈ (cDeliver regKey s a).confirms) (hnew : c ∉ s.confirms) :
+    c.orch = a.orch ∧ c.batch = a.batch ∧ regKey a.orch = some a.sigKey ∧ a.sigItem = a.batch
+      ∧ (a.creator ∈ a.signers ∨ ∃ x ∈ a.signers, s.grants a.creator x = true) := by
+  cases cDeliver_cases regKey s a with
+  | inl h => rw [h] at hin; exact absurd hin hnew
+  | inr h =>
+    obtain ⟨hante, s', hs', hd⟩ := h
+    obtain ⟨c', hc', _, ho, hb, hsk, hsi, hbk⟩ := cHandle_some regKey s s' a hs'
+    rw [hd, hc'] at hin
+    have : c = c' := by
+      cases List.mem_append.1 hin with
+      | inl h => exact absurd h hnew
+      | inr h => simpa using h
+    subst this
+    obtain ⟨h1, h2, h3⟩ := hbk
+    refine ⟨ho, hb, ?_, ?_, ?_⟩
+    · rw [← ho, h1, ← hsk, h2]
+    · rw [← hsi, h3, hb]
+    · simpa [cAnteOk, List.any_eq_true] using hante
+
+/-- "A transaction authorised by account A never adds … anything attributed to a different
+principal B", for confirmations: an attempt whose signature was not made by the key registered by
+the validator it names as orchestrator (e.g. A's own key and genuine signature, orchestrator B), or
+not over exactly the batch, stores nothing — whoever signs the transaction, whatever `eth_signer`
+says. -/
+theorem no_confirm_in_anothers_name (regKey : Addr → Option Nat) (s : CState) (a : CAttempt)
+    (h : regKey a.orch ≠ some a.sigKey ∨ a.sigItem ≠ a.batch) :
+    (cDeliver regKey s a).confirms = s.confirms := by
+  cases cDeliver_cases regKey s a with
+  | inl h' => rw [h']
+  | inr h' =>
+    obtain ⟨_, s', hs', _⟩ := h'
+    exfalso
+    unfold cHandle at hs'
+    split at hs'
+    · simp at hs'
+    · split at hs'
+      · simp at hs'
+      · rename_i hreg
+        split at hs'
+        · simp at hs'
+        · rename_i hk
+          split at hs'
+          · simp at hs'
+          · rename_i hi
+            have hreg' : regKey a.orch = some a.ethSigner := by simpa using hreg
+            have hk' : a.sigKey = a.ethSigner := by simpa using hk
+            have hi' : a.sigItem = a.batch := by simpa using hi
+            cases h with
+            | inl h => exact h (by rw [hreg', hk'])
+            | inr h => exact h hi'
+
+/-- Over ALL histories of confirmation attempts (any senders, orchestrators, keys, items, replays):
+every confirmation the chain holds names the key registered by the validator it is filed under and
+carries that key's signature over exactly its batch. -/
+theorem confirms_always_backed (regKey : Addr → Option Nat) (as : List CAttempt) :
+    ∀ s : CState, (∀ c ∈ s.confirms, CBacked regKey c) → ∀ c ∈ (cRun regKey s as).confirms, CBacked regKey c := by
+  induction as with
+  | nil => intro s h; exact h
+  | cons a rest ih =>
+    intro s h
+    simp only [cRun, List.foldl_cons]
+    exact ih (cDeliver regKey s a) (cDeliver_backed regKey s a h)
+
+/-- …and confirmations once stored are never altered or removed by later attempts (a validator's
+later own confirmation cannot be pre-empted by an entry it did not sign, see above, nor its stored
+one overwritten). -/
+theorem confirms_never_altered (regKey : Addr → Option Nat) (as : List CAttempt) :
+    ∀ s : CState, ∃ l, (cRun regKey s as).confirms = s.confirms ++ l := by
+  induction as with
+  | nil => intro s; exact ⟨[], by simp [cRun]⟩
+  | cons a rest ih =>
+    intro s
+    obtain ⟨l1, h1⟩ := cDeliver_prefix regKey s a
+    obtain ⟨l2, h2⟩ := ih (cDeliver regKey s a)
+    refine ⟨l1 ++ l2, ?_⟩
+    simp only [cRun, List.foldl_cons] at h2 ⊢
+    rw [h2, h1, List.append_assoc]
 
 /-! ### The tables against the source (`Gen/Auth.lean`) -/
 
@@ -489,6 +838,46 @@ example : (deliverTx exCfg exState [exMsg "valset.KeepAlive" 1 2 0, exMsg "token
 example : (deliverTx exCfg exState [exMsg "valset.KeepAlive" 1 1 0, exMsg "skyway.OverrideNonceProposal" 1 1 0]).slots 1 = 0 := by decide
 example : (run exCfg exState [.mtx [exMsg "valset.KeepAlive" 1 2 0, exMsg "valset.KeepAlive" 1 3 0], .grant 3 1,
     .mtx [exMsg "valset.KeepAlive" 1 2 0, exMsg "valset.KeepAlive" 1 3 0]]).slots 3 = 1 := by decide
+
+/-! hand-over histories: denom 1 is named after account 10 -/
+def exNamer : Nat → Addr := fun _ => 10
+def exD (signer creator : Addr) (act : DAct) : DOp := .msg { signers := [signer], creator := creator, denom := 1, act := act }
+
+/-- 10 creates, hands over to 22; then 10 (former admin AND the account in the name) is refused a
+    write (e.g. the bridge binding) and a second hand-over, 22 is not -/
+example : dView (dRun exNamer dInit [exD 10 10 .create, exD 10 10 (.changeAdmin (some 22)), exD 10 10 .write,
+    exD 10 10 (.changeAdmin (some 10))]) 1 = (some (some 22), 0) := by decide
+example : dView (dRun exNamer dInit [exD 10 10 .create, exD 10 10 (.changeAdmin (some 22)), exD 22 22 .write]) 1
+    = (some (some 22), 1) := by decide
+/-- in the admin's name without a grant: refused; with a grant 22 → 11: accepted -/
+example : dView (dRun exNamer dInit [exD 10 10 .create, exD 10 10 (.changeAdmin (some 22)), exD 11 22 .write]) 1
+    = (some (some 22), 0) := by decide
+example : dView (dRun exNamer dInit [exD 10 10 .create, exD 10 10 (.changeAdmin (some 22)), .grant 22 11, exD 11 22 .write]) 1
+    = (some (some 22), 1) := by decide
+/-- renounced: frozen, also for the namesake; nobody but the namesake can create -/
+example : dView (dRun exNamer dInit [exD 10 10 .create, exD 10 10 (.changeAdmin none), exD 10 10 .write, exD 10 10 .create]) 1
+    = (some none, 0) := by decide
+example : dView (dRun exNamer dInit [exD 11 11 .create]) 1 = (none, 0) := by decide
+/-- the hypotheses of `former_admin_locked_out` are satisfiable -/
+example : dAccepted exNamer (dRun exNamer dInit [exD 10 10 .create])
+    { signers := [10], creator := 10, denom := 1, act := .changeAdmin (some 22) } = true := by decide
+
+/-! confirmations: validators 20, 21 registered keys 20, 21; batch 1 -/
+def exReg : Addr → Option Nat := fun v => if v = 20 then some 20 else if v = 21 then some 21 else none
+def exC0 : CState := { confirms := [], grants := fun _ _ => false }
+def exAtt (sender orch ethSigner sigKey sigItem : Nat) : CAttempt :=
+  { signers := [sender], creator := sender, batchExists := true, batch := 1, orch := orch, ethSigner := ethSigner,
+    sigKey := sigKey, sigItem := sigItem }
+
+/-- honest; relayed by user 10 with 21's own signature: both stored -/
+example : (cRun exReg exC0 [exAtt 20 20 20 20 1, exAtt 10 21 21 21 1]).confirms
+    = [⟨1, 20, 20, 20, 1⟩, ⟨1, 21, 21, 21, 1⟩] := by decide
+/-- validator 20 files its own key and genuine signature under 21; 21's key named but 20's
+    signature; 21's signature over another batch: nothing stored, and 21 can still confirm -/
+example : (cRun exReg exC0 [exAtt 20 21 20 20 1, exAtt 20 21 21 20 1, exAtt 20 21 21 21 2, exAtt 21 21 21 21 1]).confirms
+    = [⟨1, 21, 21, 21, 1⟩] := by decide
+/-- replay: once per validator -/
+example : (cRun exReg exC0 [exAtt 20 20 20 20 1, exAtt 21 20 20 20 1]).confirms = [⟨1, 20, 20, 20, 1⟩] := by decide
 
 end Examples
 
